@@ -7,7 +7,7 @@
    of the executable model and of the replayed traces, the theorems below quantify over the data
    steps -- see docs/C01.md). *)
 From Coq Require Import ZArith List Bool Lia ZifyBool Permutation.
-From AQ Require Import lib.Base model.RangeSet model.StreamRecv model.StreamSpec model.StreamSend model.NetSys
+From AQ Require Import lib.Base model.RangeSet model.StreamRecv model.StreamSpec model.StreamSend model.NetSys model.NetSysLive
   proofs.RangeSetP proofs.ListZ proofs.StreamRecvP proofs.StreamSendP.
 
 (* ---------- list helpers ---------- *)
@@ -131,7 +131,6 @@ Inductive nreach : net -> Prop :=
 | nreach_init : nreach net_init
 | nreach_step s op o s' : nreach s -> data_op op -> net_step s op = Some (o, s') -> nreach s'.
 
-Definition noout (f : eframe) : bool := is_noneb (ef_out f).
 Definition outs_of (l : list eframe) : list frame := map ef_key (filter noout l).
 Definition eof (s : net) : Prop := s_fin (n_send s) <> None.
 
